@@ -1,7 +1,8 @@
 """Shared by the relational properties C06, C07, C13, C14, C15: the naturality argument."""
 
 NAT_LEAN = ["PV.natural", "PV.lsa_unique", "PV.code_least_action", "PV.C03_unique", "PV.TB.natural", "PV.TB.code_least_action", "PV.TB.toMain",
-            "PV.Inst.filt", "PV.Inst.blocks", "PV.Inst.twoBlocks", "PV.Inst.unperturbed", "PV.Inst.gapped", "PV.Inst.trivMainEqs", "PV.Inst.trivMainEqs2b"]
+            "PV.Inst.filt", "PV.Inst.blocks", "PV.Inst.twoBlocks", "PV.Inst.unperturbed", "PV.Inst.gapped", "PV.Inst.trivMainEqs", "PV.Inst.trivMainEqs2b",
+            "PV.Model.filtered", "PV.Model.blocks", "PV.Model.lift", "PV.MatrixModel.main_theorems", "PV.MatrixModel.two_block_theorems"]
 NAT_LEAN_NH = ["PV.natural_nh", "PV.nh_unique", "PV.NH.code_least_action"]
 
 NAT_NOTE = (
@@ -13,6 +14,7 @@ NAT_NOTE = (
 )
 
 INSTANCE_NOTE = (
-    "A-MATH (not mechanised): the concrete block series of matrices / operators with the Cauchy product and the masks computed by block_diagonalize form an "
-    "instance of the Lean setting (as for C01), and each transformation named in the property is a homomorphism of such instances: "
+    "The concrete block series of matrices with the Cauchy product and entry masks form an instance of the Lean setting (mechanised: PV/Model.lean, "
+    "MatrixModel.lean); for operator-valued series (NumberOrderedForm) this is assumed.  A-MATH (not mechanised): each transformation named in the property is a "
+    "homomorphism of such instances: "
 )
